@@ -23,7 +23,11 @@ import (
 func runStreamStress(sc stressCfg, res *vlib.Result) {
 	stream.VerifSetManual(false)
 	stream.VerifSetChaos(true)
-	srv, err := startServer([]string{"--stream-flush-timeout=40ms", "--logging-level=error"})
+	flags := []string{"--stream-flush-timeout=40ms", "--logging-level=error"}
+	if sc.RowPath {
+		flags = append(flags, "--stream-vectorized-enabled=false")
+	}
+	srv, err := startServer(flags)
 	if err != nil {
 		res.Inconclusive = append(res.Inconclusive, "server: "+err.Error())
 		return
